@@ -316,8 +316,17 @@ inline void init(int argc, char **argv, const char *pid)
         o.evidence = e;
     if (const char *e = getenv("VERIF_JOBS"))
         o.jobs = atoi(e);
-    else
+    else {
         o.jobs = std::max(1L, sysconf(_SC_NPROCESSORS_ONLN));
+        // be a good neighbour on an oversubscribed machine (several checks running at once)
+        double la[1] = {0};
+        if (getloadavg(la, 1) == 1) {
+            if (la[0] > 2.0 * o.jobs)
+                o.jobs = std::max(2, o.jobs / 4);
+            else if (la[0] > 1.0 * o.jobs)
+                o.jobs = std::max(2, o.jobs / 2);
+        }
+    }
     for (int i = 1; i < argc; i++) {
         std::string a = argv[i];
         if (a == "--tier" && i + 1 < argc)
@@ -418,11 +427,55 @@ inline std::string unjson(const std::string &s)
     return jget("{\"x\":" + s + "}", "x");
 }
 
-// run exactly one case in a forked child; returns "" if clean, else outcome class
-inline std::string run_alone(const CaseSet &cs, long long i, double limit_s, Shared *sh, const std::string &outpath)
+// extract a call-site class from a sanitizer report (ASan SUMMARY line / UBSan "runtime error" line)
+inline std::string sanitizer_summary(const std::string &path)
 {
+    std::ifstream f(path);
+    std::string line, best;
+    auto strip = [](std::string t) {
+        // drop absolute path prefixes and hex addresses so the class is stable across runs
+        size_t p;
+        while ((p = t.find("/repo/")) != std::string::npos)
+            t.erase(p, 6);
+        std::string o;
+        for (size_t i = 0; i < t.size(); i++) {
+            if (t[i] == '0' && i + 1 < t.size() && t[i + 1] == 'x') {
+                size_t j = i + 2;
+                while (j < t.size() && isxdigit((unsigned char)t[j]))
+                    j++;
+                o += "0x..";
+                i = j - 1;
+            } else
+                o += t[i];
+        }
+        return o.substr(0, 220);
+    };
+    while (std::getline(f, line)) {
+        size_t p = line.find("runtime error:");
+        if (p != std::string::npos && best.empty()) {
+            best = "ubsan:" + strip(line);
+        }
+        p = line.find("SUMMARY: ");
+        if (p != std::string::npos)
+            return strip(line.substr(p + 9));
+    }
+    return best;
+}
+
+// run exactly one case in a forked child; returns "" if clean, else outcome class
+inline std::string run_alone(const CaseSet &cs, long long i, double limit_s, Shared *sh, const std::string &outpath,
+                             std::string *summary = nullptr)
+{
+    std::string errpath = outpath + ".stderr";
+    fflush(stdout);
+    fflush(stderr);
     pid_t p = fork();
     if (p == 0) {
+        int fd = open(errpath.c_str(), O_WRONLY | O_CREAT | O_TRUNC, 0644);
+        if (fd >= 0) {
+            dup2(fd, 2);
+            close(fd);
+        }
         Ctx c;
         c.sh = sh;
         c.index = i;
@@ -434,6 +487,7 @@ inline std::string run_alone(const CaseSet &cs, long long i, double limit_s, Sha
     }
     double t = now();
     int st = 0;
+    std::string res;
     while (true) {
         pid_t r = waitpid(p, &st, WNOHANG);
         if (r == p)
@@ -441,15 +495,21 @@ inline std::string run_alone(const CaseSet &cs, long long i, double limit_s, Sha
         if (now() - t > limit_s) {
             kill(p, SIGKILL);
             waitpid(p, &st, 0);
-            return "hang";
+            res = "hang";
+            break;
         }
         usleep(2000);
     }
-    if (WIFSIGNALED(st))
-        return std::string("crash:") + strsignal(WTERMSIG(st));
-    if (WIFEXITED(st) && WEXITSTATUS(st) != 0)
-        return "exit:" + std::to_string(WEXITSTATUS(st));
-    return "";
+    if (res.empty()) {
+        if (WIFSIGNALED(st))
+            res = std::string("crash:") + strsignal(WTERMSIG(st));
+        else if (WIFEXITED(st) && WEXITSTATUS(st) != 0)
+            res = "exit:" + std::to_string(WEXITSTATUS(st));
+    }
+    if (summary)
+        *summary = sanitizer_summary(errpath);
+    unlink(errpath.c_str());
+    return res;
 }
 } // namespace detail
 
@@ -480,10 +540,13 @@ inline void run_cases(CaseSet &cs)
         }
         std::string op = outpath(0);
         printf("REPLAY %s[%lld]: %s\n", cs.name.c_str(), o.only_index, cs.desc ? cs.desc(o.only_index).c_str() : "");
-        std::string oc = detail::run_alone(cs, o.only_index, cs.hang_s * 3, &sh[0], op);
+        std::string summ;
+        std::string oc = detail::run_alone(cs, o.only_index, cs.hang_s * 3, &sh[0], op, &summ);
         if (!oc.empty()) {
             std::string d = cs.desc ? cs.desc(o.only_index) : "";
-            std::string sig = cs.crash_sig ? cs.crash_sig(o.only_index, oc) : cs.name + ":" + oc + ":" + d;
+            if (!summ.empty())
+                oc += " [" + summ + "]";
+            std::string sig = cs.crash_sig ? cs.crash_sig(o.only_index, oc) : cs.name + ":" + oc + (summ.empty() ? ":" + d : "");
             R.violation(sig, cs.name, o.only_index, oc + " in " + d);
         }
         std::ifstream f(op);
@@ -601,16 +664,22 @@ inline void run_cases(CaseSet &cs)
             continue;
         std::string d = cs.desc ? cs.desc(s.first) : "";
         std::string oc = s.second;
+        bool summarized = false;
         if (reported < 400) {
-            std::string again = detail::run_alone(cs, s.first, cs.hang_s * 3, &sh[J], outpath(J));
+            std::string summ;
+            std::string again = detail::run_alone(cs, s.first, cs.hang_s * 3, &sh[J], outpath(J), &summ);
             if (again.empty()) {
                 R.counters[cs.name + ":suspect_clean_when_alone"]++;
                 oc = "state-dependent-" + oc;
             } else
                 oc = again;
+            if (!summ.empty()) {
+                oc += " [" + summ + "]";
+                summarized = true;
+            }
             reported++;
         }
-        std::string sig = cs.crash_sig ? cs.crash_sig(s.first, oc) : cs.name + ":" + oc + ":" + d;
+        std::string sig = cs.crash_sig ? cs.crash_sig(s.first, oc) : cs.name + ":" + oc + (summarized ? "" : ":" + d);
         R.violation(sig, cs.name, s.first, oc + " in " + d);
         cs.bad.insert(s.first);
         R.counters[cs.name + ":crash_or_hang_cases"]++;
